@@ -37,8 +37,19 @@ func init() {
 			return &c15Harness{stdHarness: stdHarness{spec: spec}, maxInject: n}
 		},
 		Oracles:    func(w *World) []Oracle { return nil },
-		TweakCfg:   func(r *Rng, cfg *Config) { cfg.Knobs["env_faults"] = int64(r.Intn(2)) },
-		Quick:      Budget{Runs: 48, MaxEvents: 120},
+		TweakCfg: func(r *Rng, cfg *Config) {
+			cfg.Knobs["env_faults"] = int64(r.Intn(2))
+			if strings.HasPrefix(cfg.Scenario, "dex") {
+				// incentive hook under stress: gauges (some with a deposit beyond 64 bits), epochs that do trigger
+				cfg.Knobs["whale"] = int64(r.Intn(2))
+				cfg.Knobs["gauge_w"] = 3
+				cfg.Knobs["n_gauges"] = 2
+				if cfg.Knobs["jump_w"] < 2 {
+					cfg.Knobs["jump_w"] = 4
+				}
+			}
+		},
+		Quick:      Budget{Runs: 96, MaxEvents: 120},
 		Thorough:   Budget{Runs: 700, MaxEvents: 300},
 		Essential:  []string{"c15.block_enumerated"},
 		BatchProbe: []string{"c15.block_enumerated", "c15.units_observed"},
@@ -98,7 +109,7 @@ func init() {
 		ID: "C10", Level: "exploration", Scenarios: []string{"cdp", "cdp", "lend"},
 		Oracles: func(w *World) []Oracle {
 			if w.Cdp == nil {
-				return []Oracle{newC10()}
+				return []Oracle{newC10(), &c10LendCustody{}}
 			}
 			// "no unaccounted remainder stays in auction custody": the custody ledger of the auctionsV2 account
 			return []Oracle{newC10(), &relabel{inner: newC11(), only: "c11.custody", prop: "C10", id: "c10.custody"}}
